@@ -261,6 +261,61 @@ func (fi *FuncInfo) loopOf(b *ssa.BasicBlock) *Loop {
 
 // pathStr renders the access path of an address or of a value loaded from
 // one: root.field.field.[*]. ok=false when the root cannot be named.
+// copyOfAlloc: al is a struct local written exactly once, as a whole, with the value loaded from another
+// struct local of the same type that is itself written exactly once as a whole (no field stores to
+// either, no address escapes): then al.f ≡ src.f everywhere after the copy. Returns src, else nil.
+func copyOfAlloc(al *ssa.Alloc) *ssa.Alloc {
+	if _, isStruct := al.Type().Underlying().(*types.Pointer).Elem().Underlying().(*types.Struct); !isStruct {
+		return nil
+	}
+	onlyWhole := func(a *ssa.Alloc) *ssa.Store {
+		var st *ssa.Store
+		for _, ref := range *a.Referrers() {
+			switch x := ref.(type) {
+			case *ssa.Store:
+				if x.Addr != ssa.Value(a) || st != nil {
+					return nil
+				}
+				st = x
+			case *ssa.FieldAddr:
+				for _, r2 := range *x.Referrers() {
+					if ld, ok := r2.(*ssa.UnOp); !ok || ld.Op != token.MUL {
+						return nil // field store or escaping field address
+					}
+				}
+			case *ssa.UnOp:
+				if x.Op != token.MUL {
+					return nil
+				}
+			case *ssa.DebugRef:
+			default:
+				return nil
+			}
+		}
+		return st
+	}
+	st := onlyWhole(al)
+	if st == nil {
+		return nil
+	}
+	ld, ok := st.Val.(*ssa.UnOp)
+	if !ok || ld.Op != token.MUL {
+		return nil
+	}
+	src, ok := ld.X.(*ssa.Alloc)
+	if !ok || src == al || !types.Identical(src.Type(), al.Type()) {
+		return nil
+	}
+	if onlyWhole(src) == nil {
+		return nil
+	}
+	// the source's single store must come before the copy (it dominates it)
+	if s0 := onlyWhole(src); !(s0.Block() == st.Block() || s0.Block().Dominates(st.Block())) {
+		return nil
+	}
+	return src
+}
+
 func pathStr(v ssa.Value) (root ssa.Value, path string, ok bool) {
 	return pathStr0(v, map[*ssa.Phi]bool{})
 }
@@ -312,7 +367,18 @@ func pathStr0(v ssa.Value, inPhi map[*ssa.Phi]bool) (root ssa.Value, path string
 				}
 			}
 			v = x.Call.Args[idx]
-		case *ssa.Parameter, *ssa.FreeVar, *ssa.Global, *ssa.Alloc:
+		case *ssa.Alloc:
+			// a struct local that is nothing but a copy of another struct local (an item handed on to a
+			// helper's parameter): its fields are the source's fields
+			if src := copyOfAlloc(x); src != nil && depth < 60 {
+				v = src
+				continue
+			}
+			for i, j := 0, len(parts)-1; i < j; i, j = i+1, j-1 {
+				parts[i], parts[j] = parts[j], parts[i]
+			}
+			return x, strings.Join(parts, "."), true
+		case *ssa.Parameter, *ssa.FreeVar, *ssa.Global:
 			// reverse parts
 			for i, j := 0, len(parts)-1; i < j; i, j = i+1, j-1 {
 				parts[i], parts[j] = parts[j], parts[i]
@@ -985,6 +1051,56 @@ func (fi *FuncInfo) edgeConds(p, s *ssa.BasicBlock) []Cond {
 // a constant edge contributes the branch conditions of that edge, a computed one additionally v_i = want.
 func (fi *FuncInfo) condAlternatives(c Cond, depth int) [][]Cond {
 	c = unNot(c)
+	if bo, isBo := c.V.(*ssa.BinOp); isBo && (bo.Op == token.EQL || bo.Op == token.NEQ) && depth <= 4 {
+		// φ == nil / φ != nil on a merged pointer or interface (err of an inlined validator): the ways
+		// in whose value is known to be nil resp. non-nil drop out
+		var ph *ssa.Phi
+		if k, isC := bo.Y.(*ssa.Const); isC && k.Value == nil {
+			ph, _ = bo.X.(*ssa.Phi)
+		} else if k, isC := bo.X.(*ssa.Const); isC && k.Value == nil {
+			ph, _ = bo.Y.(*ssa.Phi)
+		}
+		if ph == nil {
+			return nil
+		}
+		for _, p := range ph.Block().Preds {
+			if ph.Block().Dominates(p) {
+				return nil
+			}
+		}
+		wantNil := (bo.Op == token.EQL) == c.True
+		var alts [][]Cond
+		dropped := false
+		for i, e := range ph.Edges {
+			if l, ok := fi.nilLin(e); ok && l.isConst() {
+				if (l.c == 1) != wantNil {
+					dropped = true
+					continue
+				}
+			}
+			pred := ph.Block().Preds[i]
+			var ec []Cond
+			if iff, ok := pred.Instrs[len(pred.Instrs)-1].(*ssa.If); ok && pred.Succs[0] != pred.Succs[1] {
+				ec = append(ec, Cond{iff.Cond, pred.Succs[0] == ph.Block()})
+			}
+			for _, cd := range fi.condsAt(pred) {
+				dup := false
+				for _, x := range fi.condsAt(ph.Block()) {
+					if x == cd {
+						dup = true
+					}
+				}
+				if !dup {
+					ec = append(ec, cd)
+				}
+			}
+			alts = append(alts, ec)
+		}
+		if !dropped {
+			return nil // nothing learnt
+		}
+		return alts
+	}
 	ph, ok := c.V.(*ssa.Phi)
 	if !ok || depth > 4 {
 		return nil
@@ -1040,7 +1156,8 @@ func (fi *FuncInfo) condAlternatives(c Cond, depth int) [][]Cond {
 func (fi *FuncInfo) expandConds(conds []Cond) [][]Cond {
 	has := false
 	for _, c := range conds {
-		if _, ok := unNot(c).V.(*ssa.Phi); ok {
+		switch unNot(c).V.(type) {
+		case *ssa.Phi, *ssa.BinOp:
 			if fi.condAlternatives(c, 0) != nil {
 				has = true
 			}
@@ -1186,6 +1303,14 @@ func (fi *FuncInfo) nilLin(v ssa.Value) (Lin, bool) {
 	case *ssa.UnOp:
 		if g, ok := x.X.(*ssa.Global); ok && x.Op == token.MUL && isErrorType(x.Type()) && g.Pkg != nil && (g.Pkg == fi.ctx.lz || g.Pkg == fi.ctx.suffix) {
 			return linConst(0), true
+		}
+	case *ssa.Call:
+		// the error constructors of the standard library never return nil
+		if cl := x.Call.StaticCallee(); cl != nil && cl.Pkg != nil {
+			switch cl.Pkg.Pkg.Path() + "." + cl.Name() {
+			case "fmt.Errorf", "errors.New":
+				return linConst(0), true
+			}
 		}
 	}
 	return linAtom("nil?" + v.Name()), true
